@@ -88,6 +88,13 @@ class Hist:
         F.append(parse("(define (poke! vec i x) (vector-set! vec i x))"))
         F.append(parse("(define (poke-%s! i x) (vector-set! %s i x))" % (v1, v1)))
         lv = self.name("lit"); F.append([S("define"), S(lv), r.choice([q(Vec([1, 2])), Vec([1, 2])])]); self.lits.append(lv)
+        # literal vectors nested inside quoted lists and inside other literal vectors are literal too
+        nl, nv = self.name("nlit"), self.name("nlit")
+        F.append([S("define"), S(nl), q([Vec([1, 2]), 5, [Vec([7])]])])
+        F.append([S("define"), S(nv), r.choice([q(Vec([Vec([3, 4]), 6])), Vec([Vec([3, 4]), 6])])])
+        self.nested = [[S("car"), S(nl)], [S("vector-ref"), S(nv), 0], [S("car"), [S("car"), [S("cdr"), [S("cdr"), S(nl)]]]]]
+        self.lits += [nv]
+        self.lists += []
         F.append(self.probe())
         while len(F) < steps:
             c = r.random()
@@ -143,7 +150,9 @@ class Hist:
                 g = r.choice(self.globs)
                 F.append(r.choice([[S("set!"), S(g), self.uniq()], [S("set-%s!" % g), self.uniq()], [S("define"), S(g), self.uniq()]]))
             elif c < 0.76:
-                F.append([S("vector-set!"), S(r.choice(self.lits)), 0, self.uniq()])        # literal vectors reject mutation
+                tgt = S(r.choice(self.lits)) if r.random() < 0.5 else r.choice(self.nested)
+                F.append([S("vector-set!"), tgt, 0, self.uniq()])        # literal vectors reject mutation, also nested ones
+                F.append(r.choice(self.nested))
             elif c < 0.82:
                 # a same-named local must not be affected / must not affect the global
                 g = r.choice(self.globs)
